@@ -87,6 +87,15 @@ fn files(prefix: &str, seqs: &[String], thorough: bool) -> Vec<FileCase> {
     out.push(FileCase { tags: vec!["no_final_newline"], text: base.trim_end().to_string() });
     out.push(FileCase { tags: vec!["blank_line_between_records"], text: format!("{}\n{}", r1[0].text, r2[0].text) });
     out.push(FileCase { tags: vec!["empty_header"], text: format!(">\n{}\n{}", &seqs[0], r2[0].text) });
+    // long headers: consecutive records whose names share runs of 99..260 equal characters at equal positions
+    // (the name catalogue is delta-coded against the previous name with capped run lengths)
+    for run in [99usize, 100, 101, 140, 200, 201, 260] {
+        let stem = "_".repeat(run);
+        let mut text = String::new();
+        for (i, sq) in seqs.iter().enumerate() { text.push_str(&format!(">{prefix}{stem}{} sample description {}\n{}\n", i + 1, i % 2, sq)); }
+        text.push_str(&format!(">{prefix}{stem}4 sample description 1\n{}\n", &seqs[0][..60]));
+        out.push(FileCase { tags: vec!["long_similar_headers"], text });
+    }
     // alphabet boundaries: for every IUPAC letter L beyond T, a record whose largest symbol is exactly L,
     // with L next to every letter <= L and at every position modulo 2, 3 and 4 (the symbol packers choose
     // their radix from the largest symbol of a segment)
@@ -125,7 +134,7 @@ pub fn run() -> i32 {
         "C16",
         "main",
         "exploration",
-        "FASTA files of 1-3 records from a menu of 12 record shapes (plain, description, all IUPAC codes, non-IUPAC letters, digits/gaps, lower case, mixed case + CRLF, interior blank line, no sequence line, blank sequence line, one base, only non-letters) and 5 file-level shapes (leading/trailing blank lines, no final newline, blank line between records, empty header), plus alphabet-boundary records (largest symbol exactly L, for every IUPAC letter L beyond T) and N runs adjacent to every other letter class; each file is used as the reference sample and as a non-reference sample (multi-file create) and inside a single PanSN file; oracle: create exits non-zero OR every listed sample extracts without error and equals the harness normaliser and every record with >= 1 base is present. non-trivial = files containing at least one non-plain shape",
+        "FASTA files of 1-3 records from a menu of 12 record shapes (plain, description, all IUPAC codes, non-IUPAC letters, digits/gaps, lower case, mixed case + CRLF, interior blank line, no sequence line, blank sequence line, one base, only non-letters) and 5 file-level shapes (leading/trailing blank lines, no final newline, blank line between records, empty header), plus records with long near-identical headers (shared runs of 99..260 characters), alphabet-boundary records (largest symbol exactly L, for every IUPAC letter L beyond T) and N runs adjacent to every other letter class; plus a sequence-content sweep (one create over ~250 sample files: contig ends cut by 0..3 bases x SNP at distance 1..32, assembly gaps N10 vs N{4,9,10,11,25} x SNP at distance 1..20); each file is used as the reference sample and as a non-reference sample (multi-file create) and inside a single PanSN file; oracle: create exits non-zero OR every listed sample extracts without error and equals the harness normaliser and every record with >= 1 base is present. non-trivial = files containing at least one non-plain shape",
     );
     quiet_panics();
     let th = rep.thorough();
@@ -151,7 +160,7 @@ pub fn run() -> i32 {
         let d = dir.join(format!("j{ji}"));
         std::fs::create_dir_all(&d).unwrap();
         // violation keys name the most suspicious shape in the file (not the whole combination)
-        let tags = ["leading_blank_line", "empty_header", "no_sequence", "blank_sequence_line", "only_non_letters", "nrun_then_letter", "alphabet_top", "non_iupac_letters", "one_base", "interior_blank_line", "blank_line_between_records", "no_final_newline", "trailing_blank_lines", "mixed_case_crlf", "digits_gaps", "iupac", "lower_case", "description"]
+        let tags = ["leading_blank_line", "empty_header", "no_sequence", "blank_sequence_line", "only_non_letters", "long_similar_headers", "nrun_then_letter", "alphabet_top", "non_iupac_letters", "one_base", "interior_blank_line", "blank_line_between_records", "no_final_newline", "trailing_blank_lines", "mixed_case_crlf", "digits_gaps", "iupac", "lower_case", "description"]
             .iter().find(|t| fc.tags.contains(t)).copied().unwrap_or("plain").to_string();
         let out = d.join("out.agc");
         let mut expected: Vec<(String, Vec<(String, String)>)> = Vec::new(); // sample -> records
@@ -228,6 +237,54 @@ pub fn run() -> i32 {
         }
         let _ = std::fs::remove_dir_all(&d);
     });
+    // ---- sequence-content sweep through the CLI: one reference file + ~250 sample files, each one point of the
+    // edit products of space::edit_sweep (contig ends cut by 0..3 bases x SNP distance; assembly gaps of
+    // different length x SNP distance). create must fail or every sample must come back exactly.
+    for (wi, (k, seg, mm)) in [(11usize, 50usize, 15usize), (15, 60, 20)].into_iter().enumerate() {
+        let cfg = crate::arch::Cfg { k, segment_size: seg, min_match: mm, ..crate::arch::Cfg::default() };
+        let samples = crate::space::edit_sweep(rep.seed.wrapping_add(wi as u64), &cfg);
+        let d = dir.join(format!("sweep{wi}"));
+        std::fs::create_dir_all(&d).unwrap();
+        let letters = |c: &[u8]| -> String { c.iter().map(|&b| IUPAC.as_bytes()[(b as usize).min(15)] as char).collect() };
+        let names: Vec<String> = samples.iter().map(|s| s.0.replace("#0", "")).collect();
+        for (s, nm) in samples.iter().zip(&names) {
+            let mut t = String::new();
+            for c in &s.1 { t.push_str(&format!(">{}\n", c.0)); for ch in letters(&c.1).as_bytes().chunks(70) { t.push_str(std::str::from_utf8(ch).unwrap()); t.push('\n'); } }
+            std::fs::write(d.join(format!("{nm}.fa")), t).unwrap();
+        }
+        let mut args: Vec<String> = ["create", "-o", "out.agc", "-k", &k.to_string(), "-s", &seg.to_string(), "-m", &mm.to_string(), "-t", "2", "-v", "0"].iter().map(|x| x.to_string()).collect();
+        for nm in &names { args.push(format!("{nm}.fa")); }
+        let a: Vec<&str> = args.iter().map(|x| x.as_str()).collect();
+        let o = cli::run(&ragc, &a, &d, &[("RAGC_VERIF_ZSTD_CAP", "3")], 300, None);
+        evals.fetch_add(1, Ordering::Relaxed);
+        nontriv.fetch_add(1, Ordering::Relaxed);
+        if o.timed_out || o.code.is_none() {
+            rep.violation("C16:create_hang_or_killed:edit_sweep", "ragc create hung or was killed", json!({"inputs": names.len()}));
+        } else if o.ok() {
+            let l = cli::run(&ragc, &["listset", "out.agc"], &d, &[], 120, None);
+            let listed: Vec<String> = String::from_utf8_lossy(&l.stdout).lines().map(|x| x.to_string()).collect();
+            if !l.ok() { rep.violation("C16:listset_failed:edit_sweep", "create exited 0 but listset fails", json!({"exit": l.code})); }
+            for nm in &names { if !listed.contains(nm) { rep.violation("C16:sample_silently_dropped:edit_sweep", "a sample is not listed", json!({"sample": nm})); } }
+            par_for(names.len(), ncpu(), |i| {
+                let g = cli::run(&ragc, &["getset", "out.agc", &names[i]], &d, &[], 120, None);
+                evals.fetch_add(1, Ordering::Relaxed);
+                if !g.ok() {
+                    rep.violation("C16:getset_failed:edit_sweep", "create exited 0 but a listed sample cannot be extracted", json!({"sample": names[i], "exit": g.code, "stderr": g.stderr.chars().take(300).collect::<String>()}));
+                    return;
+                }
+                let got: Vec<(String, String)> = cli::parse_fasta(&g.stdout).into_iter().map(|(h, q)| (h, String::from_utf8_lossy(&q).to_string())).collect();
+                let want: Vec<(String, String)> = samples[i].1.iter().map(|c| (c.0.clone(), letters(&c.1))).collect();
+                if got != want {
+                    let which: Vec<String> = want.iter().zip(got.iter()).filter(|(w, g)| w != g).map(|(w, g)| format!("{}: {} bases expected, {} returned", w.0, w.1.len(), g.1.len())).collect();
+                    rep.violation("C16:content_differs_from_normalisation:edit_sweep", "extracted sample differs from the input", json!({"sample": names[i], "sample_index": i, "create_params": format!("-k {k} -s {seg} -m {mm}"), "differing_contigs": which, "input": want}));
+                }
+            });
+        } else {
+            create_failed.fetch_add(1, Ordering::Relaxed);
+            // "create fails with an error" satisfies C16's statement (C01 is the property that forbids it)
+            rep.set("edit_sweep_create_failed", json!(o.stderr.chars().take(200).collect::<String>()));
+        }
+    }
     let _ = std::fs::remove_dir_all(&dir);
     rep.eval(evals.load(Ordering::Relaxed));
     rep.nontriv(nontriv.load(Ordering::Relaxed));
